@@ -24,7 +24,8 @@ RULE = ("objects of every exported class from the supported grammars: ports (5 o
         "config-level acls()/addrgroups() x platform x version x switches. judged = objects taken through render -> "
         "re-parse -> render; distinct non-trivial = (class, platform, native?, spelling class, switches)"
         " Round 4: rendered text assigned to the line setter of a live object of the same class (text and data as for a new object)."
-        " Round 5: lower-case nested group names.")
+        " Round 5: lower-case nested group names."
+        " Rounds 6-7: renderings much longer than the input; the same configuration text under another platform first.")
 ASSUMPTIONS = ["native = a spelling the platform's own configuration uses (IOS: any/host/A W/object-group; NX-OS: any/A/len/A W/"
                "addrgroup); prefix notation on IOS is an accepted foreign spelling (two-step convergence)",
                "data() is compared without uuid; IPv4Network values compare by value"]
@@ -130,6 +131,13 @@ def _diff(a, b, path=""):
 
 def execute(ctx, case: dict) -> None:
     cls_name, text, kwargs, native = case["cls"], case["text"], case["kwargs"], case["native"]
+    if cls_name in ("acls", "addrgroups", "aces") and case.get("other_platform_first"):
+        # the very same text was handed to the function under another platform just before (whatever that call did)
+        try:
+            _build(cls_name, text, dict(kwargs, platform=case["other_platform_first"]))
+        except Exception:  # pylint: disable=broad-except
+            pass
+        ctx.count("same_text_other_platform_first")
     try:
         o1 = _build(cls_name, text, dict(kwargs))
     except Exception as ex:  # pylint: disable=broad-except
@@ -268,7 +276,28 @@ def _acl_text(rng, platform, version, acl_type="extended", indent="  "):
     return header + "\n" + "\n".join(indent + ln for ln in lines), heading
 
 
+LONG_UDP = [4500, 138, 496, 137, 139, 42, 434, 162, 111, 9, 195, 177, 517, 514, 67, 68, 123, 161, 520, 513]
+
+
+def _long_line_case(rng):
+    """An IOS entry whose numeric spelling is short but whose rendering with names is long (well over 250 characters)."""
+    src_ports = rng.sample(LONG_UDP, 10)
+    dst_ports = rng.sample(LONG_UDP, 10)
+    line = (f"4294967295 permit udp 10.123.234.101 0.255.255.255 eq {' '.join(map(str, src_ports))} "
+            f"172.31.255.255 0.15.255.255 eq {' '.join(map(str, dst_ports))} dscp af11 log-input")
+    kw = {"platform": "ios", "version": "", "port_nr": False, "protocol_nr": False}
+    roll = rng.random()
+    if roll < 0.4:
+        return {"cls": "Ace", "text": line, "native": True, "kwargs": kw}
+    if roll < 0.7:
+        return {"cls": "Acl", "text": "ip access-list extended LONG\n  " + line + "\n  permit ip any any", "native": True, "kwargs": kw}
+    return {"cls": "aces", "text": "ip access-list extended LONG\n  " + line + "\n  permit ip any any", "native": True,
+            "kwargs": {"platform": "ios", "version": ""}}
+
+
 def gen_case(rng):
+    if rng.random() < 0.01:
+        return _long_line_case(rng)
     platform = rng.choice(["ios", "nxos"])
     roll = rng.random()
     version = rng.choice(grammar.VERSIONS)
@@ -398,6 +427,8 @@ def run(ctx) -> None:
     done = 0
     while done < n_max and not ctx.expired():
         case = gen_case(rng)
+        if case["cls"] in ("acls", "addrgroups", "aces") and rng.random() < 0.3:
+            case["other_platform_first"] = rng.choice([p for p in ("ios", "nxos", "cisco_nxos", "asa") if p != case["kwargs"].get("platform")])
         execute(ctx, case)
         done += 1
         kw = case["kwargs"]
